@@ -2178,7 +2178,12 @@ class Walker:
                 o = CMPS[type(op)]
                 nonish = lambda t: t == ("const", None)
                 # `x is None` with x known to be None (a default argument of an inlined helper), or a fresh object
-                if o in ("is", "is not") and nonish(right) and (nonish(left) or left[0] in ("alloc", "new", "tuple", "dict")):
+                counter = (left[0] == "iter" and left[1][0] == "call" and left[1][1] == ("builtin", "range")) or (
+                    left[0] == "iterproj" and left[3] in ((0,), ("pos",)) and left[1][0] == "call"
+                    and left[1][1] in (("builtin", "enumerate"), ("builtin", "zip")))
+                if o in ("is", "is not") and nonish(right) and counter:
+                    parts.append(("const", o == "is not"))  # a loop counter is a number, never None
+                elif o in ("is", "is not") and nonish(right) and (nonish(left) or left[0] in ("alloc", "new", "tuple", "dict")):
                     parts.append(("const", nonish(left) == (o == "is")))
                 elif o in ("==", "!=") and {left[0], right[0]} == {"K", "const"} and self._k_value(left, right) is not None:
                     # a library constant compared with a literal: decided by the constant's value (NIL == 0 is False)
@@ -2743,6 +2748,21 @@ class Walker:
 
     def _fold_returns(self, items) -> Optional[Term]:
         """`if c: return A` / `return B`  ->  sel(c, A, B) (guards relative to the call site)."""
+        r = self._fold_returns_split(items)
+        if r is None and len(items) >= 2:
+            # `if a: if b: return A` / `return B`: the last return is what every path that took none of the earlier ones
+            # reaches; the earlier ones are tried in source order
+            gd = items[-1][0]
+            if all(tuple(g[:len(gd)]) == tuple(gd) and len(g) > len(gd) for g, _ in items[:-1]):
+                acc = items[-1][1]
+                for g, v in reversed(items[:-1]):
+                    conds = [c if pol else mk_not(c) for c, pol in g[len(gd):]]
+                    cond = conds[0] if len(conds) == 1 else ("and", tuple(conds))
+                    acc = nan_identity(("sel", cond, v, acc))
+                return acc
+        return r
+
+    def _fold_returns_split(self, items) -> Optional[Term]:
         if not items:
             return None
         if len(items) == 1:
